@@ -512,6 +512,10 @@ def gen_class_case(rng, cls, mal=False):
         sconf = {'endpoints': eps_s if eps_s else [{}]}
         if host: sconf['host'] = host
         if port: sconf['port'] = port
+        if rng.random() < 0.35:
+            # "can take individual parameters in config or most of them in `sources`": a component the URI leaves out is given as its own key beside `sources`
+            if not host and rng.random() < 0.7: text['host'] = sconf['host'] = base['host'] = rng.choice(['10.1.2.3', 'h2'])
+            if not port and rng.random() < 0.7: text['port'] = sconf['port'] = base['port'] = rng.choice([9000, 8123])
         if bp: sconf['base_path'] = bp
         form(outputs=ol, **sconf)
         if mal and rng.random() < 0.3: text['endpoints'] = []
